@@ -23,7 +23,8 @@ func (r *rewriter) hookPass() bool {
 	mapWrites := map[ast.Expr]bool{}
 	skip := map[ast.Expr]bool{}
 	mapRanges := map[*ast.RangeStmt]bool{}
-	identWrites := map[*ast.Ident]bool{} // package-level variables in write position
+	identWrites := map[*ast.Ident]bool{}     // package-level variables in write position
+	appendArgs := map[*ast.CallExpr]string{} // append(x.f, ...) / append(global, ...): label of the slice
 
 	markLHS := func(e ast.Expr) {
 		e = unparen(e)
@@ -60,6 +61,20 @@ func (r *rewriter) hookPass() bool {
 		case *ast.IncDecStmt:
 			markLHS(x.X)
 		case *ast.CallExpr:
+			if id, ok := x.Fun.(*ast.Ident); ok && id.Name == "append" && len(x.Args) >= 1 && *hooks {
+				if _, isB := r.info.Uses[id].(*types.Builtin); isB {
+					switch a0 := unparen(x.Args[0]).(type) {
+					case *ast.SelectorExpr:
+						if sel, ok := r.info.Selections[a0]; ok && sel.Kind() == types.FieldVal {
+							appendArgs[x] = "append:" + types.ExprString(a0)
+						}
+					case *ast.Ident:
+						if v, ok := r.info.Uses[a0].(*types.Var); ok && !v.IsField() && v.Pkg() != nil && v.Parent() == v.Pkg().Scope() {
+							appendArgs[x] = "append:" + v.Pkg().Name() + "." + v.Name()
+						}
+					}
+				}
+			}
 			if id, ok := x.Fun.(*ast.Ident); ok && id.Name == "delete" && len(x.Args) == 2 {
 				if _, isB := r.info.Uses[id].(*types.Builtin); isB {
 					if s, ok := unparen(x.Args[0]).(*ast.SelectorExpr); ok {
@@ -105,6 +120,12 @@ func (r *rewriter) hookPass() bool {
 	modPrefix := "github.com/Dash-Industry-Forum/livesim2"
 	post := func(c *astutil.Cursor) bool {
 		switch n := c.Node().(type) {
+		case *ast.CallExpr:
+			if label, ok := appendArgs[n]; ok {
+				n.Args[0] = r.call("SA", n.Args[0], &ast.BasicLit{Kind: token.STRING, Value: strconv.Quote(label)})
+				r.st.AppendHooks++
+				changed = true
+			}
 		case *ast.RangeStmt:
 			if !*mapIter {
 				return true
